@@ -224,6 +224,17 @@ PROPS["C05"] = dict(
                  "'a few heartbeat intervals' = eight rounds of 'deliver everything, tick both heartbeat timers'"],
 )
 
+PROPS["C02"] = dict(
+    pkg="./props/session", level="exploration", design_ref="DESIGN.md §3 C02",
+    technique="rapid-generated concurrent send plans executed by real goroutines against a harness-played run loop, with generated pauses inside the engine's locks; oracle = invariants over the stamped wire log and stamped store-save log",
+    level_note=SESSION_NOTE + " Real thread interleavings are sampled with generated perturbation, not enumerated: this is the property the technique decides most weakly; a failing schedule may not replay deterministically, so the full stamped history is the replay artefact.",
+    stages=[dict(name="rapid", kind="rapid", run="^TestC02_Rapid$", checks=(250, 6000), shards=(12, 16), timeout=(600, 3000)),
+            dict(name="race-perturbed", kind="rapid", run="^TestC02_Rapid$", checks=(0, 400), shards=(0, 16), timeout=(0, 1500), thorough_only=True, race=True, ignore_unclassified=True)],
+    require=["store:memory", "store:file", "store:sql", "replay-overlapping-sends", "engine-traffic-overlapping-sends"],
+    assumptions=["the run-loop entry points are called from one goroutine (as the run loop does), sends from others (as SendToTarget allows)",
+                 "schedules are sampled; absence of a violation is weaker evidence here than for the sequential properties"],
+)
+
 NOT_APPLICABLE = {}
 
 HOOK_COMMITS = ["ce15100"]
